@@ -61,7 +61,7 @@ def model_check(work, prop, sc, depth, timeout=900):
     """Exhaustive check of the model-level theorems on a small universe."""
     vh = work.path("vharness")
     cat = vlib.catalogue(work, vh, "mc-" + sc["name"], sc["mc_contents"], sc["algs"], 1, cfg=sc_cfg(sc),
-                         ntags=sc.get("mc_ntags", 2), nrepos=sc.get("nrepos", 2))
+                         ntags=sc.get("mc_ntags", 2), nrepos=sc.get("nrepos", 2), reconf=[dict(sc_cfg(sc), **r) for r in sc.get("reconf", [])])
     cfg = """SPECIFICATION MCSpecAll
 CONSTANT Profile = "%s"
 CONSTANT Depth = %d
@@ -429,7 +429,7 @@ def foreign_programs(seed):
 def c14(prop, tier, seed, work):
     scs = [
         dict(name="ro", profile="ro", contents=["m1", "m2", "x1", "a1"], algs=["sha256"], depth=(30, 44), num=(25, 300),
-             stores=["dir"], obs=["refs"], reconf=RECONF, nrepos=2),
+             stores=["dir"], obs=["refs"], reconf=RECONF, nrepos=2, mc_contents=["m1"], mc_depth=(3, 4)),
         dict(name="ro2", profile="ro", contents=["m1", "b3"], algs=["sha256"], depth=(30, 44), num=(60, 400),
              stores=["dir"], obs=[], reconf=RECONF, nrepos=2),
         dict(name="foreign", static_programs=foreign_programs, obs=[], focus={"C14F"}),
@@ -441,7 +441,7 @@ def c14(prop, tier, seed, work):
 def c16(prop, tier, seed, work):
     scs = [
         dict(name="iso", profile="iso", contents=["m1", "x4", "a1", "b3", "xe", "me"], algs=["sha256"], depth=(26, 40), num=(25, 300),
-             stores=STORES3, obs=["refs", "sess"], nrepos=3, repos=["a", "a/b", "ab"], sentinel=True),
+             stores=STORES3, obs=["refs", "sess"], nrepos=3, repos=["a", "a/b", "ab"], sentinel=True, mc_contents=["m1"], mc_depth=(3, 3)),
         dict(name="iso2", profile="iso", contents=["m1", "b3"], algs=["sha256"], depth=(20, 30), num=(10, 100),
              stores=["dir", "mem"], obs=["sess"], nrepos=3, repos=["x/y/z", "x/y", "x"], sentinel=True),
     ]
